@@ -1,8 +1,15 @@
 """E-Z3 byte streams: run the real StepHash.from_inp / with_out_hashes / _update_file_hashes /
-HashWords.update with SHA-256 replaced by a recorder and with *word proxies* that carry z3
-``Seq(BitVec 8)`` terms.  The recorder's concatenation is the exact pre-image the real code feeds
-to SHA-256.  ``sorted()`` over proxies forks on the (symbolic) lexicographic comparison through
-the fork executor, so every order the real code can produce is explored with its path condition.
+HashWords.update with SHA-256 replaced by a recorder and with *word proxies* that carry symbolic
+byte strings.  The recorder's concatenation is the exact pre-image the real code feeds to SHA-256.
+``sorted()`` over proxies forks on the (symbolic) lexicographic comparison through the fork
+executor, so every order the real code can produce is explored with its path condition.
+
+Byte strings are *cell lists*: ``[(guard, BitVec8)]`` -- the string is the concatenation of the
+bytes whose guard holds (a symbolic string of length <= N is ``guard_i = (i < len)``).  Equality
+of two recorded streams is a dynamic program over the two cell lists whose cells are fresh
+Booleans (bit-vector + propositional only).  A design-round probe used z3's sequence theory
+instead; on this code it returned ``unknown`` after 120 s for configurations with two symbolic
+strings, whereas the cell encoding answers in well under a second.
 """
 
 from __future__ import annotations
@@ -11,38 +18,143 @@ import itertools
 
 import z3
 
-BV8 = z3.BitVecSort(8)
-SEQ = z3.SeqSort(BV8)
 _counter = itertools.count()
 
 
-def const_seq(b: bytes):
-    if len(b) == 0:
-        return z3.Empty(SEQ)
-    units = [z3.Unit(z3.BitVecVal(x, 8)) for x in b]
-    return units[0] if len(units) == 1 else z3.Concat(*units)
+def _bv(x):
+    return z3.BitVecVal(x, 8)
 
 
-def concat(parts):
-    parts = [p for p in parts]
-    if not parts:
-        return z3.Empty(SEQ)
-    return parts[0] if len(parts) == 1 else z3.Concat(*parts)
+def bAnd(*xs):
+    out = []
+    for x in xs:
+        if x is True:
+            continue
+        if x is False:
+            return False
+        out.append(x)
+    if not out:
+        return True
+    return out[0] if len(out) == 1 else z3.And(*out)
 
 
-def lex_lt(a, b, maxlen):
-    """a < b bytewise-lexicographically, for sequences of length <= maxlen."""
-    la, lb = z3.Length(a), z3.Length(b)
-    alts = []
-    eq_prefix = z3.BoolVal(True)
-    for i in range(maxlen + 1):
-        # first difference at position i
-        a_has, b_has = la > i, lb > i
-        alts.append(z3.And(eq_prefix, z3.Not(a_has), b_has))
-        if i < maxlen:
-            alts.append(z3.And(eq_prefix, a_has, b_has, z3.ULT(a[i], b[i])))
-            eq_prefix = z3.And(eq_prefix, a_has, b_has, a[i] == b[i])
-    return z3.Or(*alts)
+def bOr(*xs):
+    out = []
+    for x in xs:
+        if x is False:
+            continue
+        if x is True:
+            return True
+        out.append(x)
+    if not out:
+        return False
+    return out[0] if len(out) == 1 else z3.Or(*out)
+
+
+def bNot(x):
+    return (not x) if isinstance(x, bool) else z3.Not(x)
+
+
+def bz(x):
+    return z3.BoolVal(x) if isinstance(x, bool) else x
+
+
+def bIte(c, a, b):
+    if c is True:
+        return a
+    if c is False:
+        return b
+    return z3.If(c, bz(a), bz(b))
+
+
+class Cells:
+    """A symbolic byte string as a list of (guard, byte) cells."""
+
+    __slots__ = ("cells",)
+
+    def __init__(self, cells):
+        self.cells = list(cells)
+
+    @staticmethod
+    def const(b: bytes) -> "Cells":
+        return Cells([(True, _bv(x)) for x in b])
+
+    def __add__(self, other: "Cells") -> "Cells":
+        return Cells(self.cells + other.cells)
+
+    def length(self):
+        return z3.Sum([z3.If(bz(g), 1, 0) for g, _ in self.cells]) if self.cells else z3.IntVal(0)
+
+    def eval(self, m) -> bytes:
+        out = []
+        for g, c in self.cells:
+            gv = g if isinstance(g, bool) else z3.is_true(m.eval(g, model_completion=True))
+            if gv:
+                out.append(m.eval(c, model_completion=True).as_long())
+        return bytes(out)
+
+
+def _ceq(a, b):
+    if z3.is_bv_value(a) and z3.is_bv_value(b):
+        return a.as_long() == b.as_long()
+    return a == b
+
+
+def dense_eq(a: Cells, b: Cells):
+    """Equality of two *dense* cell lists (guards are prefixes)."""
+    n = max(len(a.cells), len(b.cells))
+    conj = []
+    for i in range(n):
+        ga, ca = a.cells[i] if i < len(a.cells) else (False, None)
+        gb, cb = b.cells[i] if i < len(b.cells) else (False, None)
+        if ga is False and gb is False:
+            continue
+        if ca is None:
+            conj.append(bNot(gb))
+        elif cb is None:
+            conj.append(bNot(ga))
+        else:
+            conj.append(bz(ga) == bz(gb) if not (isinstance(ga, bool) and isinstance(gb, bool)) else ga == gb)
+            conj.append(bOr(bNot(ga), _ceq(ca, cb)))
+    return bAnd(*conj)
+
+
+def dense_lt(a: Cells, b: Cells):
+    """a < b bytewise-lexicographically, both dense."""
+    n = max(len(a.cells), len(b.cells))
+    acc = False
+    for i in range(n - 1, -1, -1):
+        ga, ca = a.cells[i] if i < len(a.cells) else (False, _bv(0))
+        gb, cb = b.cells[i] if i < len(b.cells) else (False, _bv(0))
+        both = bOr(z3.ULT(ca, cb), bAnd(_ceq(ca, cb), acc))
+        acc = bIte(bNot(ga), gb, bIte(bNot(gb), False, both))
+    return acc
+
+
+def stream_eq(a: Cells, b: Cells, add):
+    """Equality of two sparse cell lists by dynamic programming; `add(constraint)` receives the
+    definitions of the fresh DP cells.  Returns a Boolean term."""
+    P, S = a.cells, b.cells
+    nP, nS = len(P), len(S)
+    M = [[None] * (nS + 1) for _ in range(nP + 1)]
+    M[nP][nS] = True
+    for j in range(nS - 1, -1, -1):
+        M[nP][j] = bAnd(bNot(S[j][0]), M[nP][j + 1])
+    for i in range(nP - 1, -1, -1):
+        M[i][nS] = bAnd(bNot(P[i][0]), M[i + 1][nS])
+    k = next(_counter)
+    for i in range(nP - 1, -1, -1):
+        pg, pc = P[i]
+        for j in range(nS - 1, -1, -1):
+            sg, sc = S[j]
+            both = bAnd(_ceq(pc, sc), M[i + 1][j + 1])
+            e = bIte(pg, bIte(sg, both, M[i][j + 1]), M[i + 1][j])
+            if not isinstance(e, bool):
+                v = z3.Bool(f"M{k}_{i}_{j}")
+                add(v == e)
+                e = v
+            M[i][j] = e
+    return M[0][0]
 
 
 class Recorder:
@@ -55,23 +167,26 @@ class Recorder:
         if isinstance(data, SymBytes):
             self.parts.append(data.term)
         elif isinstance(data, (bytes, bytearray)):
-            self.parts.append(const_seq(bytes(data)))
+            self.parts.append(Cells.const(bytes(data)))
         else:
             raise TypeError(f"recorder fed with {type(data).__name__}")
 
     def digest(self):
-        return Digest(concat(self.parts))
+        out = Cells([])
+        for p in self.parts:
+            out = out + p
+        return Digest(out)
 
 
 class Digest:
     """Opaque SHA-256 result: an injective function of the recorded stream (assumption)."""
 
-    def __init__(self, stream):
+    def __init__(self, stream: Cells):
         self.stream = stream
 
 
 class SymBytes(bytes):
-    def __new__(cls, term):
+    def __new__(cls, term: Cells):
         obj = super().__new__(cls, b"")
         obj.term = term
         return obj
@@ -85,15 +200,16 @@ class SymStr(str):
 
     def __new__(cls, name, maxlen=None):
         obj = super().__new__(cls, f"\x00sym{next(_counter)}:{name}")
-        obj.term = z3.Const(name, SEQ)
         obj.maxlen = maxlen or cls.MAXLEN
+        obj.len = z3.Int(f"{name}.len")
+        obj.term = Cells([(obj.len > i, z3.BitVec(f"{name}[{i}]", 8)) for i in range(obj.maxlen)])
         obj.name = name
         return obj
 
     def constraints(self):
-        cs = [z3.Length(self.term) <= self.maxlen]
-        for i in range(self.maxlen):
-            cs.append(z3.Implies(z3.Length(self.term) > i, self.term[i] != 0))
+        cs = [self.len >= 0, self.len <= self.maxlen]
+        for g, c in self.term.cells:
+            cs.append(z3.Implies(g, c != 0))
         return cs
 
     def encode(self, *a, **k):
@@ -101,19 +217,18 @@ class SymStr(str):
 
     def _term_of(self, other):
         if isinstance(other, SymStr):
-            return other.term, other.maxlen
+            return other.term
         if isinstance(other, str):
-            b = other.encode()
-            return const_seq(b), len(b)
-        return None, None
+            return Cells.const(other.encode())
+        return None
 
     def __eq__(self, other):
         if other is self:
             return True
-        t, _ = self._term_of(other)
+        t = self._term_of(other)
         if t is None:
             return NotImplemented
-        return SymStr.run.decide_bool(self.term == t, f"{self.name} == other")
+        return SymStr.run.decide_bool(bz(dense_eq(self.term, t)), f"{self.name} == other")
 
     def __ne__(self, other):
         r = self.__eq__(other)
@@ -123,16 +238,16 @@ class SymStr(str):
         return str.__hash__(self)
 
     def __lt__(self, other):
-        t, n = self._term_of(other)
+        t = self._term_of(other)
         if t is None:
             return NotImplemented
-        return SymStr.run.decide_bool(lex_lt(self.term, t, max(self.maxlen, n)), f"{self.name} < other")
+        return SymStr.run.decide_bool(bz(dense_lt(self.term, t)), f"{self.name} < other")
 
     def __gt__(self, other):
-        t, n = self._term_of(other)
+        t = self._term_of(other)
         if t is None:
             return NotImplemented
-        return SymStr.run.decide_bool(lex_lt(t, self.term, max(self.maxlen, n)), f"{self.name} > other")
+        return SymStr.run.decide_bool(bz(dense_lt(t, self.term)), f"{self.name} > other")
 
     def __le__(self, other):
         return not self.__gt__(other)
@@ -151,8 +266,7 @@ class SymInt:
     def to_bytes(self, length=1, byteorder="big", *, signed=False):
         if length != 8 or byteorder != "big" or signed:
             raise TypeError(f"unexpected to_bytes({length}, {byteorder!r})")
-        units = [z3.Unit(z3.Extract(63 - 8 * k, 56 - 8 * k, self.term)) for k in range(8)]
-        return SymBytes(z3.Concat(*units))
+        return SymBytes(Cells([(True, z3.Extract(63 - 8 * k, 56 - 8 * k, self.term)) for k in range(8)]))
 
 
 def make_filehash(tag, known=True):
@@ -167,11 +281,10 @@ def make_filehash(tag, known=True):
     size = SymInt(f"{tag}.size")
     cons, strict = [], []
     if known:
-        digest = z3.Const(f"{tag}.digest32", SEQ)
-        cons.append(z3.Length(digest) == 32)
+        digest = Cells([(True, z3.BitVec(f"{tag}.digest[{i}]", 8)) for i in range(32)])
         strict.append(mode.term != 0)
     else:
-        digest = const_seq(b"u")
+        digest = Cells.const(b"u")
         cons += [mode.term == 0, size.term == 0]
     fh = object.__new__(FileHash)
     object.__setattr__(fh, "digest", SymBytes(digest))
@@ -227,32 +340,32 @@ class Config:
         # keys of one mapping are pairwise distinct (they are dict keys)
         for group in ([p for p, _ in self.files], [n for n, _ in self.env], [n for n, _ in self.ovr]):
             for a, b in itertools.combinations(group, 2):
-                self.cons.append(a.term != b.term)
+                self.cons.append(bz(bNot(dense_eq(a.term, b.term))))
 
 
 def _entry_eq(kind, a, b):
     if kind == "file":
         (pa, fa), (pb, fb) = a, b
         if fa["known"] != fb["known"]:
-            return z3.BoolVal(False)
-        return z3.And(pa.term == pb.term, fa["digest"] == fb["digest"], fa["mode"] == fb["mode"], fa["size"] == fb["size"])
+            return False
+        return bAnd(dense_eq(pa.term, pb.term), dense_eq(fa["digest"], fb["digest"]), fa["mode"] == fb["mode"], fa["size"] == fb["size"])
     (na, va), (nb, vb) = a, b
     if (va is None) != (vb is None):
-        return z3.BoolVal(False)
+        return False
     if va is None:
-        return na.term == nb.term
-    return z3.And(na.term == nb.term, va.term == vb.term)
+        return dense_eq(na.term, nb.term)
+    return bAnd(dense_eq(na.term, nb.term), dense_eq(va.term, vb.term))
 
 
 def _maps_equal(kind, A, B):
     if len(A) != len(B):
-        return z3.BoolVal(False)
+        return False
     conj = []
     for a in A:
-        conj.append(z3.Or(*[_entry_eq(kind, a, b) for b in B]) if B else z3.BoolVal(False))
+        conj.append(bOr(*[_entry_eq(kind, a, b) for b in B]))
     for b in B:
-        conj.append(z3.Or(*[_entry_eq(kind, a, b) for a in A]) if A else z3.BoolVal(False))
-    return z3.And(*conj) if conj else z3.BoolVal(True)
+        conj.append(bOr(*[_entry_eq(kind, a, b) for a in A]))
+    return bAnd(*conj)
 
 
 def configs_equal(a: Config, b: Config, inp=True):
@@ -260,11 +373,11 @@ def configs_equal(a: Config, b: Config, inp=True):
     if inp:
         if a.shell != b.shell:
             return z3.BoolVal(False)
-        parts.append(a.label.term == b.label.term)
+        parts.append(dense_eq(a.label.term, b.label.term))
         parts.append(_maps_equal("env", a.env, b.env))
         parts.append(_maps_equal("env", a.ovr, b.ovr))
     parts.append(_maps_equal("file", a.files, b.files))
-    return z3.And(*parts)
+    return bz(bAnd(*parts))
 
 
 def patched_hashwords():
